@@ -9,7 +9,7 @@
 // parenthesised operands (also in the middle of every operator pair); line breaks between an operator and a unary minus;
 // IN with one element.
 // Also: [NOT] IN lists of one element inside larger expressions.
-// Also: 20 expressions with function arguments, CASE branches, IN lists, subscripts, casts and operator chains.
+// Also: 31 expressions with function arguments (list elements that start with a literal and go on with a cast / IS / IN / AND / subscript; array literals in parentheses),, CASE branches, IN lists, subscripts, casts and operator chains.
 include!("verif_grid_common.rs");
 include!("verif_grid_qcommon.rs");
 
@@ -144,6 +144,9 @@ fn verif_grid() {
         ("CASE WHEN NOT a = b THEN 1 ELSE 2 END + 1", "((CASE WHEN (NOT (a = b)) THEN 1 ELSE 2 END) + 1)"), ("a IN (b + c * d, -1)", "(a IN (((b + (c * d))), (-1)))"),
         ("xs[a + b * c]", "(xs[(a + (b * c))])"), ("xs[1] * xs[2] + xs[3]", "(((xs[1]) * (xs[2])) + (xs[3]))"), ("a + b::real * c", "(a + ((b::real) * c))"), ("-xs[1]::real", "(-((xs[1])::real))"),
         ("EXTRACT(YEAR FROM ts) + 1 > 2020 AND b", "(((EXTRACT(YEAR FROM ts) + 1) > 2020) AND b)"), ("a = 1 OR b = 2 AND NOT c = 3 OR d IS NULL", "(((a = 1) OR ((b = 2) AND (NOT (c = 3)))) OR (d IS NULL))"),
+        ("(array[a, b][1] + 1) * 2", "((((array[a, b])[1]) + 1) * 2)"), ("(array[a, b])[2]", "((array[a, b])[2])"), ("(array[a, b][1])", "((array[a, b])[1])"), ("x + (array[1, 2])[1]", "(x + ((array[1, 2])[1]))"),
+        ("greatest(x, '7'::int)", "greatest(x, ('7'::int))"), ("x IN (y, '7'::int)", "(x IN (y, ('7'::int)))"), ("least(1 IS NULL, TRUE AND b)", "least((1 IS NULL), (TRUE AND b))"), ("greatest(1 + 2 * 3, 'a' = s)", "greatest((1 + (2 * 3)), ('a' = s))"),
+        ("x IN (1 IN (2), 3)", "(x IN ((1 IN (2)), 3))"), ("greatest(xs[1], 5[1])", "greatest((xs[1]), (5[1]))"), ("least(2 OR c, 1.5 < d)", "least((2 OR c), (1.5 < d))"),
         ("a - b - c - d", "(((a - b) - c) - d)"), ("a / b / c * d", "(((a / b) / c) * d)"), ("a < b = c", "((a < b) = c)"), ("NOT NOT a = b", "(NOT (NOT (a = b)))"), ("- - a", "(-(-a))"), ("a - - - b", "(a - (-(-b)))"),
     ].iter().enumerate() {
         g.case(&format!("nested-{}", i), move || same(expr, reference));
